@@ -5,6 +5,7 @@ import (
 	"go/constant"
 	"go/token"
 	"go/types"
+	"sort"
 	"strings"
 
 	"elaverif/core"
@@ -523,6 +524,15 @@ func runC32(c *Ctx) {
 			}
 		}
 		c.R.Check("T-frozen", "checkFrozenAddresses|ranges frozenAddresses", okOuter, c.pos(fz.Pos()), "outer loop bound is len(frozenAddresses)")
+		// every entry is examined: the outer loop is left only at its header (list exhausted) or by a failing return
+		for _, i := range ssau.Ifs(fz) {
+			b, ok := i.Cond.(*ssa.BinOp)
+			if !ok || b.Op != token.LSS || i.Block().Comment != "rangeindex.loop" || !isLenOf(func(v ssa.Value) bool { return paramNamed(v, "frozenAddresses") })(b.Y) {
+				continue
+			}
+			bad := c.earlyLoopExits(fz, i.Block())
+			c.R.Check("T-frozen", "checkFrozenAddresses|no entry is skipped by leaving the loop early", len(bad) == 0, c.posOf(i), fmt.Sprintf("the loop over frozenAddresses is left only when the list is exhausted or with an error (early exits: %v)", bad))
+		}
 	}
 	c.configEnforce("K-config", "enforceFrozenAddresses", []string{"FrozenAddresses"})
 	// Sterilize resolves program hashes
@@ -540,4 +550,27 @@ func runC32(c *Ctx) {
 		}
 		c.R.Check("K-config", "Sterilize|FrozenAddress.ProgramHash", n > 0, c.pos(ster.Pos()), "Sterilize stores Uint168FromAddress(Address) into FrozenAddress.ProgramHash")
 	}
+}
+
+// earlyLoopExits lists edges that leave the loop headed by h from inside its body (not from the header) and do
+// not go straight to a failing return.
+func (c *Ctx) earlyLoopExits(fn *ssa.Function, h *ssa.BasicBlock) []string {
+	body := ssau.LoopBody(h)
+	var out []string
+	for b := range body {
+		if b == h {
+			continue
+		}
+		for _, sx := range b.Succs {
+			if body[sx] {
+				continue
+			}
+			if ret, ok := sx.Instrs[len(sx.Instrs)-1].(*ssa.Return); ok && c.failingReturn(fn, ret) {
+				continue
+			}
+			out = append(out, c.pos(b.Instrs[len(b.Instrs)-1].Pos()))
+		}
+	}
+	sort.Strings(out)
+	return out
 }
